@@ -392,7 +392,7 @@ def main():
         for fam, prof in keys:
             for lin, ops in systematic(fam, prof):
                 jobs.append({"fam": fam, "profile": prof, "lineage": lin, "ops": ops})
-            for _ in range(run.n(4, 300) if fam != "Caltrack" else run.n(2, 100)):
+            for _ in range(run.n(3, 300) if fam != "Caltrack" else run.n(2, 100)):
                 lin, ops = random_history(run.rng, fam, prof, maxlen=run.n(9, 21))
                 jobs.append({"fam": fam, "profile": prof, "lineage": lin, "ops": ops})
     # reference predictions on fresh copies (fitted object / reloaded object) for every data set some history predicts
@@ -401,7 +401,10 @@ def main():
         names = L.OBJ_ORDER[job["fam"]]
         for o in job["ops"]:
             if o[0] == "predict":
-                for lin in ("fitted", "reloaded"):      # (also for "live" histories: the hourly correspondence asks about the data set)
+                # the lineage the object can have at that point; "fitted" always (the hourly correspondence asks whether the
+                # numeric stage raises on the data set, and shrinking may remove a reload)
+                lins = {"fitted"} | ({"reloaded"} if (job["lineage"] == "reloaded" or any(x[0] == "reload" for x in job["ops"])) else set())
+                for lin in lins:
                     need.add((job["fam"], job["profile"], lin, names[o[1] % len(names)]))
         for n in names:                       # the hourly correspondence asks whether the numeric stage raises on a data set
             if job["fam"] == "Hourly" and (job["fam"], job["profile"], "fitted", n) in need:
